@@ -28,6 +28,10 @@ Record obs := {
   ob_execs : list N         (* method executions per actor *)
 }.
 
+(* tc_actors: number of harness slots.  A slot (= model actor) is ONE LIFE of an object value: when the
+   harness hands the object of a removed actor, or of one whose activation failed, to Service.Add
+   again, the new life is another actor k of the model, starting as fresh_actor.  Agreement on such
+   a case says that a value that lived before behaves like a new object. *)
 Record tcase := { tc_actors : nat; tc_ops : list (op * obs) }.
 
 Definition tcode (t : otype) : N :=
